@@ -70,18 +70,29 @@ def call(src, opts, cap):
     # doing) and WALL_FACTOR x cap seconds of wall-clock time (a call that waits for ever without computing)
     signal.signal(signal.SIGALRM, _alarm)
     signal.signal(signal.SIGPROF, _alarm)
-    signal.setitimer(signal.ITIMER_PROF, cap)
-    signal.setitimer(signal.ITIMER_REAL, cap * WALL_FACTOR)
+    # both timers fire again every second after the cap: a first signal that lands in a place where Python discards
+    # exceptions (a garbage-collector callback, a __del__) must not leave the call without a limit
+    signal.setitimer(signal.ITIMER_PROF, cap, 1.0)
+    signal.setitimer(signal.ITIMER_REAL, cap * WALL_FACTOR, 1.0)
     t0 = time.time()
+    out = None
     try:
-        return "returned", comp.compile_code(src, opts), time.time() - t0
-    except Hang:
-        return "hang", None, time.time() - t0
-    except BaseException as e:  # noqa
-        return "raised", e, time.time() - t0
-    finally:
-        signal.setitimer(signal.ITIMER_PROF, 0)
-        signal.setitimer(signal.ITIMER_REAL, 0)
+        try:
+            out = ("returned", comp.compile_code(src, opts), time.time() - t0)
+        except Hang:
+            out = ("hang", None, time.time() - t0)
+        except BaseException as e:  # noqa
+            out = ("raised", e, time.time() - t0)
+    except Hang:  # fired again between the handler above and the clearing below
+        pass
+    while True:
+        try:
+            signal.setitimer(signal.ITIMER_PROF, 0)
+            signal.setitimer(signal.ITIMER_REAL, 0)
+            break
+        except Hang:
+            continue
+    return out if out is not None else ("hang", None, time.time() - t0)
 
 
 def make_opts(spec):
